@@ -63,10 +63,13 @@ theorem substituteCore_cert' (h m : NNet) (c : Nat) (hw : WF h) (mw : WF m) (hc 
     (h5 : NNet) (map : Array (Option Nat)) (dang : List (Option Nat)) (he : substituteCore h c m = some (h5, map, dang)) :
     ∃ sh dn, SubstCert h c m sh dn map h5 := by
   obtain ⟨sh, dn, hs, hd, hni⟩ := noIgnoredB_spec h c m hr
-  obtain ⟨k1, k2, k3, k4⟩ := implOKB_spec m sh dn hs hd hok
+  obtain ⟨k1, k2, k3, k4⟩ := implOKB_spec m mw sh dn hs hd hok
   exact ⟨sh, dn, substituteCore_cert h c m sh dn hw mw hc (by simpa using hio) hcf hs hd k1 k2 k3 k4 hni h5 map dang he⟩
 
-/-- `substitute` = the circuit `substituteCore` builds with dangling logic removed; it embeds into that circuit -/
+theorem Ren.id_comp (r : Ren) : Ren.id.comp r = r := rfl
+
+/-- `substitute` = the circuit `substituteCore` builds, the outputs of its copied forks made dense (`densify`: same nodes, same
+    lines, only driver pins at forks change), with dangling logic removed; it embeds into the circuit `substituteCore` builds -/
 theorem substitute_removing {α : Type _} (z : α) (neg : α → α) (prim : String → α → α → α → α → α)
     (h m h' : NNet) (c : Nat) (hw : WF h) (mw : WF m) (hc : c < h.net.nodes.size)
     (hio : h.net.io.contains c = false) (hcf : (h.net.node c).isFork = false)
@@ -80,12 +83,26 @@ theorem substitute_removing {α : Type _} (z : α) (neg : α → α) (prim : Str
   · exact absurd he (by simp)
   · rename_i h5 map dang hcore
     obtain ⟨sh, dn, ct⟩ := substituteCore_cert' h m c hw mw hc hio hcf hr hok h5 map dang hcore
-    have ho : ∀ x ∈ map.toList.filterMap id, x < h5.net.nodes.size := by
+    obtain ⟨dd, wd⟩ := densNN_dens (map.toList.filterMap id) h5 ct.wf'
+    have he' : removeDangling (dang.length + h5.net.lines.size + 1) (densNN h5 (map.toList.filterMap id))
+        (map.toList.filterMap id) dang = some h' := he
+    have ho : ∀ x ∈ map.toList.filterMap id, x < (densNN h5 (map.toList.filterMap id)).net.nodes.size := by
       intro x hx
       obtain ⟨k, hk⟩ := mem_map_values map x hx
+      rw [dd.nsize]
       exact ct.mapLt k x hk
-    obtain ⟨w', r, e, sq, ex⟩ := removeDangling_ext z neg prim _ h5 _ dang h' ct.wf'.toWFm ho he
-    exact ⟨h5, map, dang, sh, dn, r, hcore, ct, w', e, sq, ex⟩
+    obtain ⟨w', r, e, sq, ex⟩ := removeDangling_ext z neg prim _ _ _ dang h' wd.toWFm ho he'
+    have e5 : Emb h5 h' r := by
+      have := ((dd.emb ct.wf').trans e).weaken (X' := fun _ => False) (fun j _ hx => by rcases hx with hx | hx <;> exact hx)
+      rw [Ren.id_comp] at this
+      exact this
+    have ex5 : Ext z neg prim h5 h' r := by
+      have := Ext.trans e (dd.ext ct.wf' z neg prim) ex
+      rw [Ren.id_comp] at this
+      exact this
+    refine ⟨h5, map, dang, sh, dn, r, hcore, ct, w', e5, ?_, ex5⟩
+    intro j hj hs
+    exact sq j (by rw [dd.nsize]; exact hj) (by rw [dd.kind]; exact hs)
 
 end KV.Transform
 
